@@ -47,7 +47,7 @@ InvalidChecksum: ...
 
 from stdnum.exceptions import *
 from stdnum.iso7064 import mod_97_10
-from stdnum.util import clean
+from stdnum.util import clean, isdigits
 
 
 def compact(number):
@@ -62,7 +62,7 @@ def validate(number):
     number = compact(number)
     if len(number) < 5 or len(number) > 25:
         raise InvalidLength()
-    if not number.startswith('RF'):
+    if not number.startswith('RF') or not isdigits(number[2:4]):
         raise InvalidFormat()
     mod_97_10.validate(number[4:] + number[:4])
     return number
